@@ -222,7 +222,11 @@ def gen_c10(rng, cid, thorough, long_history=None):
         idx = []
         for p in batch:
             lines.append(G.pkt_line(slot, p)); idx.append(slot); slot += 1
-        lines.append('ENC %d %d %s' % (G.pick_min(rng, maxb, batch) if batch else 0, maxb, ' '.join(map(str, idx))))
+        if rng.chance(1, 8):
+            # an earlier call that left by exception (absurd minimum size): whatever it had built must not leak into the next call
+            lines.append('ENCX %d %s' % (maxb, ' '.join(map(str, idx))))
+        else:
+            lines.append('ENC %d %d %s' % (G.pick_min(rng, maxb, batch) if batch else 0, maxb, ' '.join(map(str, idx))))
     maxb = G.gen_ctx(rng, None, thorough)
     if maxb > 2000: maxb = 1500
     batch = G.gen_batch(rng, maxb, rng.range(1, 5), huge_ok=False)
@@ -275,6 +279,6 @@ def run_c10(res, rng):
     for i, h in enumerate([65533, 65534, 65530] if res.tier == 'quick' else [65535, 65534, 65533, 65532, 65531, 65530, 65529, 65520, 65500, 131069]):
         cases.append(gen_c10(rng.fork('w%d' % i), 'w%d' % i, False, long_history=h))
     correspondence(res, cases, proj_f, judge_c10, 'history independence')
-    res.cov['rule'] = 'pairs (history of 1-6 earlier encode calls with random batches/contexts, batch+context); the same batch is then encoded on a fresh encoder with the same ids; plus histories of 65500..65535 (131069) earlier frames so that the final batch straddles the counter wrap; judge: frames equal apart from a constant counter offset; non-trivial = the final batch needs segmentation'
+    res.cov['rule'] = 'pairs (history of 1-6 earlier encode calls with random batches/contexts - one in eight of them leaving by exception (minimum size SIZE_MAX) -, batch+context); the same batch is then encoded on a fresh encoder with the same ids; plus histories of 65500..65535 (131069) earlier frames so that the final batch straddles the counter wrap; judge: frames equal apart from a constant counter offset; non-trivial = the final batch needs segmentation'
     res.cov['distinct_nontrivial'] = len(set(tuple(c.lines) for c in cases if 'batch' in c.meta and any(16 + len(p['payload']) > c.meta['max'] - 8 for p in c.meta['batch'])))
     res.cov['samples'] = [sample_case(c, 8) for c in cases[:2]]
